@@ -30,6 +30,12 @@ func MonC05() *Mon {
 	}
 	return &Mon{Name: "C05",
 		Restarted: func(n *Node) { delete(visited, n) },
+		Panic: func(n *Node, c *Call, msg string) {
+			// (C11 reports every panic; a re-initialisation that panics has also failed to put the node at the next height)
+			if (c.Kind == CReset || c.Kind == CStart) && !n.Faulty {
+				n.W.Fail("C05", fmt.Sprintf("node %d: the library panicked inside %s at ledger height %d (%s)", n.ID, c.Kind, n.Tip, msg), "panic-in-reinitialisation")
+			}
+		},
 		ProcessBlock: func(n *Node, b *vt.Block, err error) {
 			if inQuiet(n) {
 				n.W.Fail("C05", fmt.Sprintf("node %d: ProcessBlock(%d) called after the height was already decided", n.ID, b.Idx), "processblock-after-decision")
@@ -407,7 +413,10 @@ func MonC12() *Mon {
 	}
 	stillIn := func(n *Node, o *ob) bool {
 		d := n.D
-		if d.BlockIndex != o.h || d.ViewNumber != o.v || !d.IsBackup() || d.Context.WatchOnly() || d.BlockSent() {
+		// "a backup" by the harness' own knowledge - the flag its application serves right now, its identity's place in
+		// the validator list, the reference rotation - not by the library's IsBackup()/WatchOnly(), which are the subject
+		// (seeded change C12k: the flag cached per view)
+		if d.BlockIndex != o.h || d.ViewNumber != o.v || !n.Active() || n.IndexAt(d.BlockIndex) == refPrimary(d.BlockIndex, d.ViewNumber, len(d.Validators)) || d.BlockSent() {
 			return false
 		}
 		if ph, ok := curProp(n); !ok || ph != o.prop {
@@ -422,6 +431,12 @@ func MonC12() *Mon {
 		Restarted: func(n *Node) { delete(obs, n) },
 		RequestTx: func(n *Node, hs []vt.H) {
 			d := n.D
+			if !n.Active() {
+				// the proposal is being accepted by a node that is watch-only right now: not "a backup that has accepted
+				// the proposal" - whatever it is handed while silent it may consume silently, also if the flag is cleared later
+				delete(obs, n)
+				return
+			}
 			// the proposal is stored right after processMissingTx; identify the obligation by (h, v, hashes requested)
 			o := obs[n]
 			if o == nil || o.h != d.BlockIndex || o.v != d.ViewNumber || vt.Sum(hashList(d.TransactionHashes)) != o.listSum {
@@ -442,6 +457,10 @@ func MonC12() *Mon {
 			}
 			if c.Kind != CTransaction {
 				o.other++
+				return
+			}
+			if !n.Active() && o.asked[c.Tx.Hash()] {
+				delete(obs, n) // a requested transaction handed over while the node is silent: consumed without an answer, by right
 				return
 			}
 			// resolve the proposal hash lazily (it is stored after RequestTx returns)
